@@ -196,6 +196,7 @@ type State struct {
 	Watched []int // objects whose plain loads and stores are scheduling points (nd.Watch); shared, append-only
 	ConcreteClock bool
 	ClockTick int64
+	StackLimit int // nd.StackLimit: a call stack deeper than this many frames is a stack overflow (fatal in Go)
 	narrowCache map[int]int
 	facts    map[int]bool
 	factsVer int
@@ -230,7 +231,7 @@ func (st *State) fork() *State {
 		id: stateSeq, nextObj: st.nextObj, Cur: st.Cur,
 		Steps: st.Steps, SymBr: st.SymBr, PanicLbl: st.PanicLbl, Depth: st.Depth, Preempts: st.Preempts,
 		LastNow: st.LastNow, Epoch: st.Epoch, NoSched: st.NoSched, noSchedStep: st.noSchedStep, NeedSched: st.NeedSched, PoolReuse: st.PoolReuse, YieldFrom: st.YieldFrom, TimerFired: st.TimerFired, VisibleAtomics: st.VisibleAtomics, ConcreteClock: st.ConcreteClock, ClockTick: st.ClockTick,
-		Watched: st.Watched[:len(st.Watched):len(st.Watched)], WatchAll: st.WatchAll, LazyTimers: st.LazyTimers,
+		Watched: st.Watched[:len(st.Watched):len(st.Watched)], WatchAll: st.WatchAll, LazyTimers: st.LazyTimers, StackLimit: st.StackLimit,
 	}
 	// the parent also needs a new id so that neither mutates shared objects in place
 	stateSeq++
